@@ -66,6 +66,7 @@ def _satsolve_filein_fileout(F, cmd='minisat', verbose=0):
     sat.close()
 
     output = b''
+    foutput = []
 
     # Run the command, store its output and remove the temporary files.
     try:
